@@ -153,6 +153,8 @@ pub enum SinkAnswer {
 	Accept(usize),
 	Interrupted,
 	HardError,
+	/// a hard error of kind `WouldBlock` (not `Interrupted`: it must surface, not be retried)
+	WouldBlock,
 	Zero,
 }
 
@@ -213,6 +215,10 @@ impl<'d> ScheduledSink<'d> {
 				st.hard_fault_at = Some(call);
 				Err(io::Error::new(io::ErrorKind::Other, "injected sink error"))
 			}
+			SinkAnswer::WouldBlock => {
+				st.hard_fault_at = Some(call);
+				Err(io::Error::new(io::ErrorKind::WouldBlock, "injected sink error (would block)"))
+			}
 			SinkAnswer::Zero => {
 				st.hard_fault_at = Some(call);
 				Ok(0)
@@ -265,6 +271,7 @@ pub fn sink_menu(lens: &[usize], with_faults: bool) -> Vec<SinkAnswer> {
 	m.push(SinkAnswer::Interrupted);
 	if with_faults {
 		m.push(SinkAnswer::HardError);
+		m.push(SinkAnswer::WouldBlock);
 		m.push(SinkAnswer::Zero);
 	}
 	m
